@@ -462,8 +462,8 @@ def run(tier, seed, shard, nshards):
                 ck.check_fixed(tag, src, ok)
         except Violation as v:
             s.violations.append(v.payload)
-        n = 500 if tier == "quick" else 10000
-        nb = 25 if tier == "quick" else 400
+        n = 1500 if tier == "quick" else 10000
+        nb = 60 if tier == "quick" else 400
         hyp_run(mk_test(False), program(False), n, shard_seed(seed, shard, "c11"), s)
         hyp_run(mk_test(True), program(True), nb, shard_seed(seed, shard, "c11b"), s)
         hyp_run(mk_test(True), program_scopes(), nb, shard_seed(seed, shard, "c11s"), s)
